@@ -157,6 +157,14 @@ class Session:
         self.raised = []                 # exception objects we raised (identity check)
         self.shown = []                  # per wait point: does the terminal show the widget state?
         self.wstate = 0                  # the widget's state (number of inputs it handled); its text is S<n>
+        self.pop_open = lambda: False    # is the launcher's pop-up open (make_launcher)
+
+    def screen_lines(self):
+        """what the terminal has to show: the body's text and, when open, the pop-up (10x3 at column 1, row 1)"""
+        lines = ["S%d" % self.wstate]
+        if self.pop_open():
+            lines += [" " + "P" * 10] * 3
+        return lines
 
     def cb(self, item):
         """one callback invocation: trace it, then fault if the plan says so"""
@@ -256,6 +264,7 @@ def make_launcher(S, body, wc, urwid):
 
     pop = Pop()
     launcher = Launcher(body)
+    S.pop_open = lambda: launcher._pop_up_widget is not None
     return launcher
 
 
@@ -425,8 +434,7 @@ def run_hook(case):
     def injector():
         # the idle callbacks are through: the loop is about to wait.  Does the terminal show the widget?
         tr.append([T_WAIT])
-        if not cfg.get("launcher"):          # (what an open pop-up looks like is not judged)
-            S.shown.append(1 if grid.shows(["S%d" % S.wstate]) else 0)
+        S.shown.append(1 if grid.shows(S.screen_lines()) else 0)
         i = state["i"]
         state["i"] += 1
         if i < len(rounds):
@@ -577,6 +585,8 @@ def run_plain(case):
         def unh(key):
             S.cb([T_UNHANDLED] + key_from_py(key))
             return bool(cfg["unhandled"])
+    if cfg.get("launcher"):
+        w = make_launcher(S, w, case["widget"], urwid)
     ml = urwid.MainLoop(w, screen=scr, handle_mouse=bool(cfg.get("handle_mouse", True)),
                         input_filter=filt, unhandled_input=unh, pop_ups=bool(cfg.get("pop_ups")))
 
@@ -906,7 +916,19 @@ def expected_with_popup(cfg, wc, keys, st):
         out.append(([T_FILTER, len(keys)] + [x for k in keys for x in k], not keys))
         keys = [k for k in keys if not (k[0] == 1 and k[1] in cfg["filter"])]
     for k in keys:
-        if k[0] != 1:
+        if k[0] == 0:
+            continue
+        if k[0] == 2:
+            if st["open"]:
+                # the pop-up is the topmost widget; it does not handle mouse events
+                if cfg.get("unhandled") is not None:
+                    out.append(([T_UNHANDLED] + k, False))
+            else:
+                out += expected_for_keys(dict(cfg, filter=None), wc, [k])
+            continue
+        if not wc.get("selectable", True):
+            # MainLoop offers keys only to a selectable topmost widget: nothing can open the pop-up
+            out += expected_for_keys(dict(cfg, filter=None), wc, [k])
             continue
         if st["open"]:
             out.append(([T_POPKEY, k[1]], False))
@@ -954,7 +976,9 @@ def expected_rounds(case):
             if not b and not have_alarm:
                 continue                    # get_input timed out with nothing to do: the loop keeps waiting
             exp = []
-            if b or cfg.get("filter") is None:
+            if cfg.get("launcher"):
+                exp += expected_with_popup(cfg, wc, b, popup)
+            elif b or cfg.get("filter") is None:
                 exp += expected_for_keys(cfg, wc, b)
             else:
                 # an empty batch is still shown to the input filter by _run_screen_event_loop
@@ -1142,8 +1166,8 @@ class C12(core.Check):
 
     # ---------- model wire format ----------
     def encode(self, case):
-        if case["kind"] == "pty" or case["cfg"].get("launcher"):
-            return None              # (pop-up open / close sessions are judged by the oracle only)
+        if case["kind"] == "pty":
+            return None
         cfg, wc = case["cfg"], case["widget"]
         b = lambda x: 1 if x else 0      # noqa: E731
         l = [b(case["kind"] == "hook")]
@@ -1159,6 +1183,7 @@ class C12(core.Check):
         l += [len(wc.get("mouse", []))] + list(wc.get("mouse", []))
         l += [b(wc.get("cursor"))]
         l += list(cfg.get("sig", [0, 0, 0]))
+        l += [b(cfg.get("launcher")), len(wc.get("pop_keys", []))] + list(wc.get("pop_keys", []))
         plan = sorted((int(k), v) for k, v in case.get("plan", {}).items())
         l += [len(plan)] + [x for kv in plan for x in kv]
         if case["kind"] == "hook":
@@ -1317,7 +1342,7 @@ class C12(core.Check):
         if sec is not None:
             if sec["out"] != ["ok"]:
                 msgs.append(f"second run() on the same MainLoop and Screen: {sec['out']}")
-            if not cfg.get("launcher") and (not all(sec["shown"]) or not sec["shown"]):
+            if not all(sec["shown"]) or not sec["shown"]:
                 msgs.append("second run() on the same MainLoop and Screen: the loop waits but the terminal does not show "
                             "the widget state (nothing was painted into the fresh alternate buffer)")
             bad2 = [k for k, v in sorted(sec["term"].items()) if v != (1 if k == "cursor" else 0)]
@@ -1526,19 +1551,25 @@ class C12(core.Check):
         """pop_ups=True with a PopUpLauncher whose pop-up widget is cached: open, close, open again"""
         K = lambda c: [1, c, 0, 0]      # noqa: E731,N806
         o, x, k, j = K(KEY_OPEN), K(KEY_CLOSE), K(107), K(106)
+        m1, m2 = [2, 1, 3, 2], [2, 2, 40, 10]        # inside / outside the pop-up's rectangle
         scripts = [
             [[["in", [o, k]]], [["in", [x, k]]], [["in", [o]]], [["in", [k, j, x]]], [["in", [k]]]],
             [[["in", [o, k, x, k, o, j, x, j]]]],
             [[["in", [k]]], [["in", [o]], ["alarm", 3]], [["resize"]], [["in", [x]]], [["in", [o]]], [["in", [k]]], [["in", [x, o, k]]]],
+            [[["in", [m1, o, m1, m2, K(CTRL_L)]]], [["in", [x, m1, m2]]]],
         ]
         cfgs = [
             {"filter": [], "unhandled": 0, "handle_mouse": False, "pop_ups": True, "launcher": True},
             {"filter": None, "unhandled": None, "handle_mouse": True, "pop_ups": True, "launcher": True, "second_run": True},
         ]
-        w = {"selectable": True, "has_mouse": True, "keys": {"106": 0}, "mouse": [], "cursor": False, "pop_keys": [107]}
+        w = {"selectable": True, "has_mouse": True, "keys": {"106": 0}, "mouse": [1], "cursor": False, "pop_keys": [107]}
         for sc in scripts:
             for cfg in cfgs:
                 yield {"kind": "hook", "cfg": dict(cfg), "widget": w, "rounds": sc}
+        # the same under _run_screen_event_loop (screen without hook_event_loop)
+        yield {"kind": "plain", "cfg": {"filter": [], "unhandled": 1, "handle_mouse": True, "pop_ups": True, "launcher": True,
+                                        "pre_alarms": [2]},
+               "widget": w, "inputs": [[o, k], [], [x, k, m1], [o, m1], [j, x, j]]}
 
     def base_frag_cases(self):
         """'up' typed one byte per read (three reads inside complete_wait), then nothing for longer than complete_wait"""
@@ -1588,6 +1619,11 @@ class C12(core.Check):
               "mouse": rng.sample([1, 2, 3], rng.randrange(0, 3)), "cursor": rng.random() < 0.5}
         if not cfg["pop_ups"] and rng.random() < 0.1:
             wc["has_mouse"] = False
+        if rng.random() < 0.2:
+            # a PopUpLauncher below the PopUpTarget; 'o' / 'x' open and close its (cached) pop-up widget
+            cfg["pop_ups"], cfg["launcher"], wc["has_mouse"] = True, True, True
+            wc["pop_keys"] = rng.sample([97, 98, 99, 100, 12], rng.randrange(0, 3))
+            codes += [KEY_OPEN, KEY_OPEN, KEY_CLOSE, KEY_CLOSE]
         if kind == "hook":
             rounds = []
             for _ in range(rng.randrange(1, 5)):
@@ -1722,7 +1758,7 @@ class C12(core.Check):
                 yield dict(case, plan={(str(int(a) - 1) if a == k else a): b for a, b in plan.items()})
         cfg = case["cfg"]
         for f in ("pop_ups", "prestarted", "paste", "focus", "tty", "second_run"):
-            if cfg.get(f):
+            if cfg.get(f) and not (f == "pop_ups" and cfg.get("launcher")):
                 yield dict(case, cfg=dict(cfg, **{f: False}))
         if cfg.get("pre_alarms"):
             yield dict(case, cfg=dict(cfg, pre_alarms=[]))
